@@ -569,10 +569,45 @@ func c03SliceLattice(c *Ctx, idx int) {
 	c.Nontrivial(s, sl)
 }
 
+// error-texts: failing expressions of every error category whose text has a chosen
+// number of characters of a chosen encoded width (1-4 bytes), so that byte length and
+// character count differ by up to 4x around every plausible cut-off of an error message
+// (quoting, abbreviating, position arithmetic); every error is formatted every way.
+var c03ErrKinds = []struct{ pre, post string }{
+	{"'", ""},                // unterminated raw string
+	{"\"", ""},               // unterminated quoted identifier
+	{"`\"", ""},              // unterminated JSON literal
+	{"\"", "\" ||"},          // dangling operator after a long identifier
+	{"\"", "\" #"},           // bad token at the end
+	{"# \"", "\""},           // bad token at the start
+	{"nosuchfn('", "')"},     // unknown function
+	{"abs('", "', `1`)"},     // arity
+	{"abs('", "')"},          // invalid type at evaluation
+	{"pad_left('", "', `-1`)"}, // invalid value
+	{"$", ""},                // undefined variable with a long name (ASCII filler only is a valid name)
+	{"`1` / `0` || '", "'"},  // not a number
+	{"'", "'[::0]"},          // slice step 0
+	{"\"", "\".\"b\"[?"},     // truncated filter
+}
+var c03ErrFill = []string{"a", "é", "日", "😀", "\u0301", "\ufffd", " ", "\\\\"}
+var c03ErrLens = []int{0, 1, 2, 7, 8, 9, 15, 16, 17, 20, 21, 22, 23, 30, 31, 32, 33, 40, 63, 64, 65, 66, 100, 127, 128, 129, 200, 255, 256, 257, 511, 512, 513, 1023, 1024, 1025, 4096, 65535, 65536, 65537}
+
+func c03ErrTextsN(c *Ctx) int { return len(c03ErrKinds) * len(c03ErrFill) * len(c03ErrLens) }
+
+func c03ErrTexts(c *Ctx, idx int) {
+	k := c03ErrKinds[idx%len(c03ErrKinds)]
+	idx /= len(c03ErrKinds)
+	f := c03ErrFill[idx%len(c03ErrFill)]
+	n := c03ErrLens[idx/len(c03ErrFill)]
+	text := k.pre + strings.Repeat(f, n) + k.post
+	c.CheckNoPanic(text, map[string]any{"a": json.Number("1")}, map[string]string{"family": "error-texts"})
+	c.Nontrivial(k.pre, f, fmt.Sprint(n))
+}
+
 func init() {
 	Register(&Property{
 		ID:            "C03",
-		Rule:          "expression bytes (all prefixes/suffixes of every corpus expression - exhaustive; random bytes; random token sequences over a hostile vocabulary incl. invalid UTF-8; token mutants; 1 MiB flat inputs; 20 recursive constructs nested to depth 10..1e5 (3e5 thorough) and the 4e6 witnesses) and data (every Go numeric kind incl. NaN/Inf, odd json.Number texts, decimal specials, typed nils, foreign values, invalid UTF-8) placed in every argument position of every builtin and operator; an exhaustive slice lattice (start/stop/step over {absent, small, +-2^62, 2^63-1, 2^63-2, -2^63, -2^63+1} on single-byte strings, multi-byte strings and arrays, as literal subject / current node / after a pipe / twice in a row); each driven through Search, Compile and Expression.Search with every returned error formatted; a monitor reports recovered panics, the driver attributes child deaths through the crash-surviving intent slot; non-trivial = every distinct input (all are meaningful for a crash property)",
+		Rule:          "expression bytes (all prefixes/suffixes of every corpus expression - exhaustive; random bytes; random token sequences over a hostile vocabulary incl. invalid UTF-8; token mutants; 1 MiB flat inputs; 20 recursive constructs nested to depth 10..1e5 (3e5 thorough) and the 4e6 witnesses) and data (every Go numeric kind incl. NaN/Inf, odd json.Number texts, decimal specials, typed nils, foreign values, invalid UTF-8) placed in every argument position of every builtin and operator; failing expressions of every error category whose text has 0..65537 characters of one encoded width (byte length and character count differ by up to 4x around every plausible cut-off of an error message); an exhaustive slice lattice (start/stop/step over {absent, small, +-2^62, 2^63-1, 2^63-2, -2^63, -2^63+1} on single-byte strings, multi-byte strings and arrays, as literal subject / current node / after a pipe / twice in a row); each driven through Search, Compile and Expression.Search with every returned error formatted; a monitor reports recovered panics, the driver attributes child deaths through the crash-surviving intent slot; non-trivial = every distinct input (all are meaningful for a crash property)",
 		MinNontrivial: 1000,
 		Streams: []Stream{
 			{Name: "truncations", N: c03TruncN, Run: c03Trunc, Exhaustive: true},
@@ -582,6 +617,7 @@ func init() {
 			{Name: "hostile", N: c03HostileN, Run: c03Hostile},
 			{Name: "hostile-random", N: func(c *Ctx) int { return tierN(c, 40000, 800000) }, Run: c03HostileRandom},
 			{Name: "int-lattice", N: func(c *Ctx) int { return 8 * 19 * 19 * 6 }, Run: c03IntLattice, Exhaustive: true},
+			{Name: "error-texts", N: c03ErrTextsN, Run: c03ErrTexts, Exhaustive: true},
 			{Name: "slice-lattice", N: c03SliceLatticeN, Run: c03SliceLattice, Exhaustive: true},
 			{Name: "long", N: func(c *Ctx) int { return 12 }, Run: c03Long, Exhaustive: true},
 			{Name: "nesting", N: c03NestN, Run: c03Nest, Exhaustive: true},
